@@ -37,13 +37,18 @@ def script(case):
          "    print('VERIF-INST ' + _j.dumps(dict(kind=kind, dirarg=dirarg, "
          "ret=_paths(x), **kw)))",
          "dep = shared_library('lib/inner/dep', ['dep.c'])",
+         # a versioned shared library that is never passed to install(): it
+         # is only a (transitive) run-time dependency of the executable
+         "dep2 = shared_library('lib/inner/dep2', ['dep2.c'], "
+         "version='2.0.1', soversion='2')",
+         "mid = shared_library('lib/mid', ['mid.c'], libs=[dep2])",
          "stl = static_library('stl', ['stl.c'])"]
 
     def d(i):
         a = dirargs[i]
         return (", directory=%r" % '/'.join(a)) if a else ''
     if items[0]:
-        L.append("exe = executable('bin/prog', ['main.c'], libs=[dep, stl])")
+        L.append("exe = executable('bin/prog', ['main.c'], libs=[dep, mid, stl])")
         L.append("_ev('exe', %r, install(exe%s))" % (dirargs[0], d(0)))
     if items[1]:
         L.append("shl = shared_library('shl', ['shl.c'], version='1.2.3', "
@@ -94,8 +99,10 @@ def run_case(case):
         W('dep.c', 'int dep(void){return 1;}\n')
         W('stl.c', 'int stl(void){return 2;}\n')
         W('shl.c', 'int shl(void){return 3;}\n')
-        W('main.c', 'int dep(void);int stl(void);'
-          'int main(void){return dep()+stl()-3;}\n')
+        W('dep2.c', 'int dep2(void){return 4;}\n')
+        W('mid.c', 'int dep2(void);int mid(void){return dep2()+1;}\n')
+        W('main.c', 'int dep(void);int stl(void);int mid(void);'
+          'int main(void){return dep()+stl()+mid()-8;}\n')
         W('single.h', '#define S 1\n')
         W('include/a.h', '#define A 1\n')
         W('include/sub/b.h', '#define B 1\n')
@@ -135,9 +142,15 @@ def run_case(case):
                     ev['dirarg'] = e['dirarg']
                 if e['kind'] == 'exe':
                     # run-time dependency: the shared library it links
+                    # run-time closure: the shared libraries it links and
+                    # what those need at run time (soname link + real file
+                    # of the versioned one; not its link-time name)
                     ev['deps'] = [{'root': 'libdir', 'comps':
-                                   e['dirarg'] + ['lib', 'inner',
-                                                  'libdep.so']}]
+                                   e['dirarg'] + c} for c in (
+                        ['lib', 'inner', 'libdep.so'],
+                        ['lib', 'libmid.so'],
+                        ['lib', 'inner', 'libdep2.so.2'],
+                        ['lib', 'inner', 'libdep2.so.2.0.1'])]
                 if e['kind'] == 'shlib':
                     # the soname link and the real file are its run-time files
                     base = e['ret'][0][1][:-1]
@@ -182,7 +195,26 @@ def run_case(case):
                 events.append({'ev': 'Rpath', 'file': p, 'dirs': dirs,
                                'builddir': [c for c in bld.split('/') if c],
                                'want': [{'root': 'libdir', 'comps':
-                                         exe_dirarg + ['lib', 'inner']}]})
+                                         exe_dirarg + ['lib', 'inner']},
+                                        {'root': 'libdir', 'comps':
+                                         exe_dirarg + ['lib']}]})
+        # the installed program starts with only the installed files at hand
+        # (the build directory is moved away; the loader is pointed at the
+        # staged library directories because DESTDIR is a staging prefix)
+        for p in tree:
+            full = os.path.join(stage, *p)
+            if p[-1] == 'prog' and not os.path.islink(full):
+                libdirs = sorted({os.path.join(stage, *q[:-1]) for q in tree
+                                  if '.so' in q[-1]})
+                os.rename(bld, bld + '.away')
+                try:
+                    r = subprocess.run(
+                        [full], capture_output=True, text=True, cwd=root,
+                        env={'LD_LIBRARY_PATH': ':'.join(libdirs)})
+                finally:
+                    os.rename(bld + '.away', bld)
+                events.append({'ev': 'Run', 'exit': r.returncode,
+                               'note': r.stderr[-300:]})
         rc, out = run(['make', 'uninstall', 'DESTDIR=' + stage], cwd=bld,
                       env=env)
         tree2 = listing(stage) if os.path.exists(stage) else []
